@@ -191,14 +191,14 @@ def plan(ctx: Ctx) -> T.List[T.Tuple[str, int, int, bool]]:
                                                    ('methods', rng.getrandbits(32), 0, full),
                                                    ('functions', rng.getrandbits(32), 0, full)]
     chunk = 250
-    for kind, total in (('rand', ctx.scale(16000, 160000)), ('mutant', ctx.scale(10000, 100000)),
-                        ('alias', ctx.scale(4000, 40000))):
+    for kind, total in (('rand', ctx.scale(12000, 60000)), ('mutant', ctx.scale(8000, 40000)),
+                        ('alias', ctx.scale(3000, 15000))):
         for _ in range(total // chunk):
             tasks.append((kind, rng.getrandbits(32), chunk, full))
-    for name, total, ch in (('short_circuit', ctx.scale(1500, 15000), 250), ('divmod', ctx.scale(3000, 30000), 500),
-                            ('index', ctx.scale(3000, 30000), 500), ('keys', ctx.scale(1000, 10000), 250),
-                            ('parse_laws', ctx.scale(4000, 40000), 500), ('precedence_values', ctx.scale(3000, 30000), 500),
-                            ('control', ctx.scale(800, 8000), 200), ('variables', ctx.scale(1500, 15000), 250)):
+    for name, total, ch in (('short_circuit', ctx.scale(1500, 7500), 250), ('divmod', ctx.scale(3000, 15000), 500),
+                            ('index', ctx.scale(3000, 15000), 500), ('keys', ctx.scale(1000, 5000), 250),
+                            ('parse_laws', ctx.scale(4000, 20000), 500), ('precedence_values', ctx.scale(3000, 15000), 500),
+                            ('control', ctx.scale(800, 4000), 200), ('variables', ctx.scale(1500, 7500), 250)):
         for _ in range(max(1, total // ch)):
             tasks.append(('oracle:' + name, rng.getrandbits(32), ch, full))
     tasks.append(('oracle:cross_type', 0, 0, True))
@@ -361,16 +361,18 @@ def search(ctx: Ctx, disagreements: T.List[dict]) -> None:
                     ctx.violation(key, what, case)
     finally:
         im.close()
+    if ctx.violations:
+        return  # the oracle pass of run() already produced a failing input
     rng = ctx.rng
     tasks: T.List[T.Tuple[str, int, int, bool]] = []
-    for name, total, ch in (('short_circuit', 15000, 250), ('divmod', 30000, 500), ('index', 30000, 500), ('keys', 10000, 250),
-                            ('parse_laws', 40000, 500), ('precedence_values', 30000, 500), ('control', 8000, 200),
-                            ('variables', 15000, 250)):
+    for name, total, ch in (('short_circuit', 5000, 250), ('divmod', 10000, 500), ('index', 10000, 500), ('keys', 3000, 250),
+                            ('parse_laws', 10000, 500), ('precedence_values', 10000, 500), ('control', 3000, 200),
+                            ('variables', 5000, 250)):
         for _ in range(total // ch):
             tasks.append(('oracle:' + name, rng.getrandbits(32), ch, True))
     tasks += [('oracle:cross_type', 0, 0, True), ('oracle:escapes', 0, 0, True)]
     for kind in ('alias', 'rand', 'mutant'):
-        for _ in range(40):
+        for _ in range(16):
             tasks.append((kind, rng.getrandbits(32), 250, True))
     for r in execute(tasks):
         for key, what, case in r['viol']:
